@@ -529,6 +529,58 @@ def check(ctx):
         ctx.check(lo == "LBEFF" and hi == "UBEFF", val, s, "x0 clamped to [LB_eff, UB_eff]",
                   f"x0 is clamped to ({lo}, {hi}) instead of the effective (inward-shifted) bounds: a start exactly on a finite hard bound stays on it and the first evaluation is on the boundary",
                   construct=f"x0 clamp bounds ({lo}, {hi})")
+    # the effective bounds are the hard bounds shifted inwards; a definition that takes a hard bound as it is (no margin)
+    # is vacuous only where every bound is infinite
+    from .common import deref_expr as _dx7
+
+    def _all_infinite(test, pol, at) -> bool:
+        if not pol:
+            return False
+        f = Normaliser(resolver(at), rename, inline=inline_mask_helper(prog, val)).quant(test, True)
+        cj = {show(c_) for c_ in top_conjuncts(f)}
+        if any("isfinite(lb)" in c_ and c_.startswith("ALL[") and "not" in c_ for c_ in cj) and any("isfinite(ub)" in c_ and c_.startswith("ALL[") and "not" in c_ for c_ in cj):
+            return True
+        t = _dx7(prog, val, test)
+        if isinstance(t, ast.Compare) and len(t.ops) == 1 and isinstance(t.ops[0], ast.Eq):
+            for cnt, tot in ((t.left, t.comparators[0]), (t.comparators[0], t.left)):
+                if canon(tot).replace("self.", "") not in ("(2 * D)", "(D * 2)", "(D + D)"):
+                    continue
+                counted, other = set(), False
+                terms = []
+
+                def flat(e_):
+                    if isinstance(e_, ast.BinOp) and isinstance(e_.op, ast.Add):
+                        flat(e_.left)
+                        flat(e_.right)
+                    else:
+                        terms.append(e_)
+
+                flat(cnt)
+                for tm in terms:
+                    if not (isinstance(tm, ast.Call) and (call_name(tm) in ("np.sum", "np.count_nonzero", "sum") or (isinstance(tm.func, ast.Attribute) and tm.func.attr == "sum"))):
+                        other = True
+                        continue
+                    arg = tm.args[0] if tm.args else (tm.func.value if isinstance(tm.func, ast.Attribute) else None)
+                    if not (isinstance(arg, ast.Call) and call_name(arg) == "np.isinf" and arg.args):
+                        other = True
+                        continue
+                    a0 = arg.args[0]
+                    parts = a0.args[0].elts if isinstance(a0, ast.Call) and call_name(a0) in ("np.concatenate", "np.vstack", "np.hstack") and a0.args and isinstance(a0.args[0], (ast.List, ast.Tuple)) else [a0]
+                    for p_ in parts:
+                        counted.add(rename(canon(p_)))
+                if not other and counted == {"lb", "ub"} and len(terms) in (1, 2):
+                    return True  # the number of infinite bounds equals the number of bounds
+        return False
+
+    for t, v, s, k in iter_stores(val.node):
+        if isinstance(t, ast.Name) and mapping.get(t.id) in ("LBEFF", "UBEFF") and isinstance(v, ast.Name) and k == "assign":
+            hard = "lb" if mapping[t.id] == "LBEFF" else "ub"
+            if rename(v.id) != hard:
+                continue
+            gs = guard_of(prog, val, s)
+            okv = any(_all_infinite(t_, p_, s) for t_, p_ in gs)
+            ctx.check(okv, val, s, f"{t.id} = {v.id} only where every bound is infinite (no margin to take)",
+                      f"the effective bound {t.id} is the hard bound itself on a path whose guard does not say that every bound is infinite: a start on a finite hard bound is not moved inside there", construct=f"effective bound without margin {t.id} = {v.id}")
     ctx.assume("after the finiteness validation, isinf and not-isfinite coincide on the bounds (NaN bounds are rejected by the ordering check)")
 
 
